@@ -783,6 +783,13 @@ def cases(tier, seed):
             ops = [o for o in sub if o in SCENARIOS[name]().ops()]
             for seq in itertools.product(ops, repeat=3):
                 out.append({"kind": "history", "scn": name, "ops": list(seq), "regime": "each"})
+    if tier == "quick":
+        # a restored earlier mesh of the history that is then changed in place: depth 4 over {solve+save, replace mesh, restore iteration 0, re-coordinate}
+        sub = ["solve_save", "replacemesh", "setiter0", "setcoord"]
+        for name in ("elastic", "thermal", "beam"):
+            for seq in itertools.product(sub, repeat=4):
+                if seq[0] == "solve_save" and "replacemesh" in seq[1:3] and "setiter0" in seq[2:]:
+                    out.append({"kind": "history", "scn": name, "ops": list(seq), "regime": "each"})
     # one model shared by two simulations
     for name in ("elastic", "thermal", "elastic_trisot"):
         mops = [o for o in SCENARIOS[name]().model_ops if not o.endswith("_field")]
@@ -802,7 +809,7 @@ def describe(tier, seed):
                 "Shared-model regime: all ordered pairs of parameter assignments on a model observed by two simulations, four observation patterns. "
                 "non-trivial = the observed matrices changed along the history; distinct = fingerprint of all observations",
         "exhaustive": True,
-        "bound": f"depth {depth} (observe after each op) / {depth + 1 if tier == 'quick' else depth} (observe at the end)",
+        "bound": f"depth {depth} (observe after each op) / {depth + 1 if tier == 'quick' else depth} (observe at the end)" + ("; depth 3 over 5 mesh / restore operations; depth 4 over {solve+save, replace mesh, restore, re-coordinate} for histories that save, replace the mesh and restore" if tier == "quick" else ""),
         "alphabet": {name: len(SCENARIOS[name]().ops()) for name in QUICK_SCN},
         "assumptions": ["differential oracle: the fresh simulation is given the live coordinates, the live state (u, v, a through the public getters) and the harness's record of parameters/conditions",
                         "conditions are re-entered after mesh replacement / iteration restore (the mesh setter documents that it re-initialises them) and after every motion of the nodes (distributed loads are integrated when entered)",
